@@ -205,7 +205,7 @@ fn specs(tier: Tier) -> Vec<EncSpec> {
         (2, false, true),
         (4, true, true),
     ];
-    let placements = [Placement::LevelOrder, Placement::DepthFirst, Placement::ChildrenFirst, Placement::Padded, Placement::Ragged];
+    let placements = [Placement::LevelOrder, Placement::DepthFirst, Placement::ChildrenFirst, Placement::Padded, Placement::Ragged, Placement::BlocksReversed];
     let fanouts: &[usize] = if quick { &[2, 8] } else { &[2, 3, 8] };
     let chrom_blocks: &[usize] = &[2, 3, 64];
     let mut contents: Vec<(bool, Vec<EncChrom>)> = wig_contents().into_iter().map(|c| (false, c)).collect();
